@@ -834,6 +834,111 @@ pub fn write_campaign(seed: u64, max_runs: u64, ops_path: &str, impl_path: &str)
 }
 
 
+// ------------------------------------------------------------------------------------------
+// C17: a setter that returned Ok — possibly as the retry of an attempt that failed on a transient
+// write/seek fault — has set the value: it is returned by lookups at once and after reopening
+
+fn meta_values(comp: &mut CompoundFile<FaultyFile>, path: &str) -> Option<(u32, [u8; 16], u64, u64)> {
+    comp.entry(path).ok().map(|e| {
+        (e.state_bits(), *e.clsid().as_bytes(), cfb::verif::timestamp_from_system_time(e.created()), cfb::verif::timestamp_from_system_time(e.modified()))
+    })
+}
+
+pub fn meta_campaign() {
+    let mut evaluations = 0u64;
+    let t1 = cfb::verif::system_time_from_timestamp(131_000_000_123_456_789);
+    let t2 = cfb::verif::system_time_from_timestamp(99_999_999_999_999_999);
+    let clsid = uuid::Uuid::from_bytes([1, 2, 3, 4, 5, 6, 7, 8, 9, 10, 11, 12, 13, 14, 15, 16]);
+    // (name, path, setter index)
+    let setters: Vec<(&str, &str, u8)> = vec![
+        ("set_state_bits", "/a", 0), ("set_state_bits", "/a/s", 0), ("set_state_bits", "/", 0), ("set_state_bits", "/b/c", 0),
+        ("set_storage_clsid", "/a", 1), ("set_storage_clsid", "/", 1), ("set_storage_clsid", "/b/c", 1),
+        ("set_created_time", "/a", 2), ("set_created_time", "/", 2), ("set_modified_time", "/a", 3), ("set_modified_time", "/", 3),
+        ("set_modified_time", "/b/c", 3),
+    ];
+    for version in [Version::V3, Version::V4] {
+        for (name, path, which) in &setters {
+            // fault-free: how many underlying write-side calls does the setter make?
+            let mut n_calls = 0u64;
+            let mut k = 0u64;
+            loop {
+                let ctl = Ctl::new(false, true);
+                ctl.count_writes.store(false, Ordering::SeqCst);
+                let inner = SharedFile::new(Vec::new());
+                let file = FaultyFile { inner: inner.clone(), ctl: ctl.clone(), seek_is_read: false };
+                let mut comp = CompoundFile::create_with_version(version, file).unwrap();
+                comp.create_storage("/a").unwrap();
+                comp.create_stream("/a/s").unwrap().write_all(&pattern(300, 3)).unwrap();
+                comp.create_storage_all("/b/c").unwrap();
+                for q in ["/x1", "/x2", "/x3"] {
+                    comp.create_stream(q).unwrap();
+                }
+                let before = meta_values(&mut comp, path).unwrap();
+                ctl.count_writes.store(true, Ordering::SeqCst);
+                ctl.fail_a.store(if n_calls == 0 { u64::MAX } else { k }, Ordering::SeqCst);
+                let apply = |comp: &mut CompoundFile<FaultyFile>| -> io::Result<()> {
+                    match which {
+                        0 => comp.set_state_bits(path, 0xDEAD_BEEF),
+                        1 => comp.set_storage_clsid(path, clsid),
+                        2 => comp.set_created_time(path, t1),
+                        _ => comp.set_modified_time(path, t2),
+                    }
+                };
+                let mut result = None;
+                let mut transcript = Vec::new();
+                for _attempt in 0..3 {
+                    let r = catch(|| apply(&mut comp));
+                    match r {
+                        Err(m) => { println!("ORACLE {} {} (V{}) fault at underlying call {}: panic {}", name, path, if version == Version::V3 { 3 } else { 4 }, k, m.chars().take(120).collect::<String>()); break; }
+                        Ok(Ok(())) => { transcript.push("ok"); result = Some(()); break; }
+                        Ok(Err(_)) => transcript.push("err"),
+                    }
+                }
+                ctl.count_writes.store(false, Ordering::SeqCst);
+                if n_calls == 0 {
+                    n_calls = ctl.calls.load(Ordering::SeqCst).max(1);
+                    if result.is_none() {
+                        println!("ORACLE {} {}: failed without any fault", name, path);
+                        break;
+                    }
+                    continue; // now enumerate k = 0 .. n_calls
+                }
+                evaluations += 1;
+                if result.is_some() {
+                    let want = {
+                        let mut w = before;
+                        match which {
+                            0 => w.0 = 0xDEAD_BEEF,
+                            1 => w.1 = *clsid.as_bytes(),
+                            2 => w.2 = 131_000_000_123_456_789,
+                            _ => w.3 = 99_999_999_999_999_999,
+                        }
+                        // streams keep a nil CLSID and zero times whatever is set
+                        if *path == "/a/s" { w.2 = 0; w.3 = 0; }
+                        w
+                    };
+                    let live = meta_values(&mut comp, path);
+                    if live != Some(want) {
+                        println!("ORACLE {} {} (V{}): a fault at underlying call {} then a retry that returned Ok ({}): entry() shows {:?}, expected {:?}", name, path, if version == Version::V3 { 3 } else { 4 }, k, transcript.join(","), live, want);
+                    }
+                    let bytes = inner.snapshot();
+                    let re = CompoundFile::open(std::io::Cursor::new(bytes)).ok().and_then(|c| c.entry(path).ok()).map(|e| {
+                        (e.state_bits(), *e.clsid().as_bytes(), cfb::verif::timestamp_from_system_time(e.created()), cfb::verif::timestamp_from_system_time(e.modified()))
+                    });
+                    if re != Some(want) {
+                        println!("ORACLE {} {} (V{}): a fault at underlying call {} then a retry that returned Ok ({}): after reopening the bytes the entry shows {:?}, expected {:?}", name, path, if version == Version::V3 { 3 } else { 4 }, k, transcript.join(","), re, want);
+                    }
+                }
+                k += 1;
+                if k >= n_calls {
+                    break;
+                }
+            }
+        }
+    }
+    println!("STAT evaluations {}", evaluations);
+}
+
 /// The buffer size a fresh handle really starts with when the smallest maximum is asked for (the
 /// crate's minimum, whatever the source says it is today): read off a real handle through hook H1.
 pub fn real_buf_min() -> usize {
